@@ -12,16 +12,30 @@ open Proto C02
 def optNat? (s : String) : Option (Option Nat) :=
   if s = "_" then some none else s.toNat?.map some
 
-/-- a date attribute: `_` | nat | nat@<how>. `<how>` (`u`, `+hhmm`, `-hhmm`) only tells the harness through
+/-- nanoseconds per abstract second: the model's time unit is the nanosecond (`DateTime<Utc>` resolution), so that
+instants inside one second / millisecond / microsecond are distinct -/
+def NS : Nat := 1000000000
+
+/-- an instant: `<sec>` | `<sec>f<nanos>` ↦ nanoseconds -/
+def parseInstant? (s : String) : Option Nat :=
+  match s.splitOn "f" with
+  | [a] => a.toNat?.map (· * NS)
+  | [a, n] => do
+    let a ← a.toNat?
+    let n ← n.toNat?
+    if n < NS then some (a * NS + n) else none
+  | _ => none
+
+/-- a date attribute: `_` | inst | inst@<how>. `<how>` (`u`, `+hhmm`, `-hhmm`) only tells the harness through
 which builder twin and in which textual form (UTC offset) the SAME abstract instant is handed to the rule; the
-model sees the instant. -/
+model sees the instant (in nanoseconds). -/
 def optDate? (s : String) : Option (Option Nat) :=
   match s.splitOn "@" with
-  | [a] => optNat? a
+  | [a] => if a = "_" then some none else (parseInstant? a).map some
   | [a, h] =>
     let okHow := h = "u" ||
       ((h.startsWith "+" || h.startsWith "-") && h.length = 5 && (h.drop 1).toString.toList.all Char.isDigit)
-    if okHow then a.toNat?.map some else none
+    if okHow then (parseInstant? a).map some else none
   | _ => none
 
 def parseCond? (s : String) : Option Cond :=
@@ -74,8 +88,8 @@ def parseRule? (s : String) : Option Rule :=
            agenda := ag, actGroup := actg, effective := eff, expires := exp, cond := c, actions := acts }
   | _ => none
 
-/-- abstract time of `execute_with_callback` (= now) -/
-def nowT : Nat := 50
+/-- abstract time of `execute_with_callback` (= now), in nanoseconds -/
+def nowT : Nat := 50 * NS
 
 def parseOp? (s : String) : Option Op :=
   let rest := (s.drop 1).toString
@@ -83,7 +97,8 @@ def parseOp? (s : String) : Option Op :=
   else if s = "P" then some .pop
   else if s = "Z" then some .clear
   else if s = "N" then some .resetNoLoop
-  else if s.startsWith "X" then rest.toNat?.map .exec
+  -- `X<t>u`: the same instant, handed over as a `DateTime<Utc>` built by arithmetic (harness/src/bin/c02.rs)
+  else if s.startsWith "X" then (parseInstant? (if rest.endsWith "u" then (rest.dropEnd 1).toString else rest)).map .exec
   else if s.startsWith "F" then rest.toNat?.map .focus
   else if s.startsWith "V" then rest.toNat?.map .activate
   else if s.startsWith "A" then (parseRule? rest).map .add
@@ -104,7 +119,7 @@ def isKbOp : Op → Bool
   | _ => false
 
 /-- a case op: the primitive ops, plus `T` execute | `B0` / `B1` set_debug_mode | `Q0` / `Q1` disable / enable analytics | `M<A|R|E|D>…` the knowledge-base call
-through `knowledge_base_mut()` | `K` knowledge_base().clear() | `W<g>` execute_workflow_step | `Y<g>.<g>.…` execute_workflow -/
+through `knowledge_base_mut()` | `K` knowledge_base().clear() | `H<l|s|g>&rule&…` `*knowledge_base_mut() = new_kb` | `W<g>` execute_workflow_step | `Y<g>.<g>.…` execute_workflow -/
 def parseCall? (s : String) : Option Call :=
   let rest := (s.drop 1).toString
   if s = "T" then some .execNow
@@ -116,6 +131,11 @@ def parseCall? (s : String) : Option Call :=
   else if s.startsWith "M" then do
     let o ← parseOp? rest
     if isKbOp o then some (.viaMut o) else none
+  else if s.startsWith "H" then
+    -- `H<mode>` | `H<mode>&rule&rule…`, mode = `l` / `s` / `g`: how the new base's version counter compares (harness only)
+    match rest.splitOn "&" with
+    | m :: rs => if m = "l" || m = "s" || m = "g" then (rs.mapM parseRule?).map .kbReplace else none
+    | [] => none
   else if s.startsWith "W" then rest.toNat?.map .wfStep
   else if s.startsWith "Y" then ((rest.splitOn ".").mapM String.toNat?).map .workflow
   else (parseOp? s).map .op
